@@ -4,7 +4,7 @@ from __future__ import annotations
 from ..core import Ctx, Result
 from ..unitlib import finalize_units, mc_or_die, run_unit_cases, seqify, tlc_cases
 
-LEAVES = [["id"], ["id", "double"], ["id", "inc", "double"]]
+LEAVES = [["id"], ["id", "double"], ["id", "inc", "double"], ["vec"], ["id", "vec"]]     # vec: an array-valued leaf of length 3
 
 
 def map_cases(ctx, g, rng):
